@@ -790,6 +790,51 @@ theorem rotate_keeps_votes_and_transfers (s s' : State) (old new payer : Addr) (
     · intro hn
       simp only [hn]
 
+/-! ### relayed Ethereum transactions (`Custody.relayTx`) -/
+
+/-- a relay signed by an account with custody enabled never gets past the decorator (whatever it embeds) -/
+theorem relay_by_guarded_signer_refused (s : State) (relayer key to : Addr) (amt fee : Nat) (st : Settings)
+    (h : s.settings relayer = some st) (he : st.enabled = true) : relayTx s relayer key to amt fee = (s, .err .invType) := by
+  simp [relayTx, relayRefused, h, he]
+
+/-- a relay writes balances only: no custody record, vote or pending transfer changes -/
+def SameRecords (s s' : State) : Prop :=
+  s'.settings = s.settings ∧ s'.custodians = s.custodians ∧ s'.whitelist = s.whitelist ∧ s'.limits = s.limits ∧
+  s'.status = s.status ∧ s'.pool = s.pool ∧ s'.votes = s.votes
+
+theorem relay_touches_only_balances (s : State) (relayer key to : Addr) (amt fee : Nat) :
+    SameRecords s (relayTx s relayer key to amt fee).1 := by
+  unfold relayTx
+  by_cases hr : relayRefused s relayer = true
+  · rw [if_pos hr]; exact ⟨rfl, rfl, rfl, rfl, rfl, rfl, rfl⟩
+  · rw [if_neg hr]
+    cases hd : deductFee s relayer fee with
+    | error e => exact ⟨rfl, rfl, rfl, rfl, rfl, rfl, rfl⟩
+    | ok s2 =>
+      have hs2 : SameRecords s s2 := by
+        unfold deductFee at hd
+        split at hd
+        · cases hd
+        · cases hd; exact ⟨rfl, rfl, rfl, rfl, rfl, rfl, rfl⟩
+      simp only
+      cases sendCoins s2.bal key to (if amt = 0 then [] else [(0, amt)]) with
+      | none => exact hs2
+      | some b => exact hs2
+
+/-- the full statement "coins of a custody-enabled account leave only through an approved custody transfer" is false of
+the code as written: account 1 has custody on with two custodians and mode 100, nothing was requested or approved; the
+unguarded account 7 relays an Ethereum transaction that account 1 signed, and 300000 ukex leave account 1
+(finding `C17/relay/ignores-custody`). The same relay sent by account 1 itself is refused. -/
+def sRelay : State :=
+  { settings := fun a => if a = 1 then some { enabled := true, mode := 100, key := keyHash 1 } else none,
+    custodians := fun a => if a = 1 then some [(4, true), (5, true)] else none,
+    bal := fun a d => if d = 0 ∧ (a = 1 ∨ a = 7) then 1000000 else 0 }
+
+theorem relay_ignores_custody_counterexample :
+    let r := relayTx sRelay 7 1 7 300000 1000
+    r.2 = .ok ∧ r.1.bal 1 0 = 700000 ∧ r.1.bal 7 0 = 1299000 ∧ r.1.pool 1 = none ∧ r.1.votes = [] ∧
+    (relayTx sRelay 1 1 7 300000 1000).2 = .err .invType := by decide
+
 /-! ### Application wiring (table `Gen.App`) -/
 
 /-- the custody decorator is in the ante chain exactly once -/
